@@ -472,7 +472,7 @@ def lock_held_sets(fn):
     or when moved into a call (std::mem::drop)."""
     sites = lock_sites(fn)
     if not sites:
-        return sites, {}, {}
+        return sites, defaultdict(set), defaultdict(set)
     aliases = [guard_local_of(fn, c) for (c, m, n) in sites]
     site_at = {c.bb: i for i, (c, m, n) in enumerate(sites)}
     # kill points
@@ -488,11 +488,6 @@ def lock_held_sets(fn):
             if c2.name in ("std::mem::drop", "core::mem::drop") and c2.args and c2.args[0][0] == "m":
                 for i, al in enumerate(aliases):
                     if c2.args[0][1][0] in al:
-                        kills[bb].add(i)
-        for s in fn.stmts(bb):
-            if s[2] == "dead":
-                for i, al in enumerate(aliases):
-                    if s[3] in al and _is_guard_ty(fn.local_ty(s[3])):
                         kills[bb].add(i)
     IN = defaultdict(set)
     OUT = defaultdict(set)
@@ -517,3 +512,92 @@ def lock_held_sets(fn):
 
 def _is_guard_ty(ty):
     return "Guard<" in ty or "LockResult" in ty or "Result<std::sync::" in ty
+
+
+# ----------------------------------------------------------------------------- interprocedural lock order
+
+def through_guard(sym):
+    """If sym is (a deref of) a lock guard obtained from RwLock::read/write or Mutex::lock on a field,
+    return (mode, lock_name); the chain may pass unwrap/expect/deref/deref_mut/var."""
+    s = sym
+    for _ in range(12):
+        s = strip(s)
+        if s[0] == "call":
+            m = LOCK_ACQ.get(s[1])
+            if m is not None:
+                return (m, lock_name(s[2][0]))
+            if s[1].endswith(("::unwrap", "::expect", "::deref_mut", "::deref", "::unwrap_or_else")) or s[4].endswith(("Deref::deref", "DerefMut::deref_mut")):
+                if not s[2]:
+                    return None
+                s = s[2][0]
+                continue
+            return None
+        if s[0] in ("variant",):
+            s = s[1]
+            continue
+        if s[0] == "field" and s[2] == "0":
+            s = s[1]
+            continue
+        return None
+    return None
+
+
+def lock_summaries(P, fns, depth=3):
+    """fn name -> list of (lock_name relative to the fn's params, mode) it may acquire, transitively
+    through local callees (bounded depth)."""
+    summ = {}
+
+    def go(fn, d, stack):
+        if fn.name in summ:
+            return summ[fn.name]
+        acq = []
+        for (c, m, n) in lock_sites(fn):
+            acq.append((n, m))
+        if d > 0:
+            for c in fn.calls():
+                if c.bb not in fn.normal_blocks() or not c.resolved or c.resolved not in P.fns or c.resolved in stack:
+                    continue
+                callee = P.fns[c.resolved]
+                sub = go(callee, d - 1, stack | {fn.name})
+                for (n, m) in sub:
+                    acq.append((rebase_lock(fn, c, callee, n), m))
+        summ[fn.name] = acq
+        return acq
+    for f in fns:
+        go(f, depth, frozenset())
+    return summ
+
+
+def rebase_lock(fn, call, callee, name):
+    """Translate a callee-relative lock name (`self.rules`) to the caller's frame using the call's arguments."""
+    base, _, rest = name.partition(".")
+    for i in range(1, callee.argc + 1):
+        pn = callee.locals[i][1] or "_%d" % i
+        if pn == base and i - 1 < len(call.args):
+            return lock_name(("field", fn.sym_operand(call.args[i - 1]), rest, "")) if rest else lock_name(fn.sym_operand(call.args[i - 1]))
+    return "?" + name
+
+
+def lock_order_edges(P, fns, depth=3):
+    """[(held_name, acquired_name, fn, line, via)] over the given functions, including acquisitions made
+    inside local callees while the caller holds a guard."""
+    summ = lock_summaries(P, list(P.fns.values()) if depth else fns, depth)
+    edges = []
+    acqs = []
+    for fn in fns:
+        sites, IN, OUT = lock_held_sets(fn)
+        names = [n for (c, m, n) in sites]
+        for i, (c, m, n) in enumerate(sites):
+            acqs.append((fn, c, m, n, None))
+            for h in IN[c.bb]:
+                edges.append((names[h], n, fn, c.line, None))
+        for c in fn.calls():
+            if c.bb not in fn.normal_blocks() or not c.resolved or c.resolved not in P.fns:
+                continue
+            callee = P.fns[c.resolved]
+            for (n, m) in summ.get(callee.name, []):
+                rn = rebase_lock(fn, c, callee, n)
+                acqs.append((fn, c, m, rn, callee.name))
+                for h in IN[c.bb] if sites else []:
+                    edges.append((names[h], rn, fn, c.line, callee.name))
+    return edges, acqs
